@@ -111,6 +111,11 @@ Inductive case :=
 (* the rows of one second as the aggregator files them: keys in arrival order; observed: the bytes of the real
    Key.MarshalAppend of every key, and for every row the index of the first row that got the same *MultiItem from
    MultiItemMap.GetOrCreateMultiItem(&k, nil, keyBytes of k.XXHash) *)
+(* a row whose unique sketch sits at the thinning threshold: the sender's sketch holds the hashes a + k*step
+   (k < n, inserted in this order by insertHash), the receiver already holds the hashes [pre] ([] = a fresh item:
+   the UmMarshall path; otherwise MergeRead). Observed: digest of the sender's sketch and of the receiver's after
+   MultiValueToTL -> bytes -> MergeWithTL2 *)
+| CBigU (a step n : Z) (pre : list Z) (o_src o_dst : udig)
 | CBucket (rows : list brow) (o_bytes : list (list Z)) (o_first : list Z).
 
 Definition ok_with (fx : bool) (c : case) : bool :=
@@ -138,6 +143,7 @@ Definition ok_with (fx : bool) (c : case) : bool :=
                              end) o_top
       end
   | CBucket _ _ _ => false
+  | CBigU _ _ _ _ _ _ => false
   end.
 
 (* placeholder for rows that are checked by the Go-side oracles only *)
@@ -154,6 +160,22 @@ Definition ok_bucket (c : case) : bool :=
   | _ => false
   end.
 
-Definition ok (c : case) : bool := if ok_bucket c then true else if ok_with false c then true else ok_with true c.
+Definition ok_bigu (ufix : bool) (c : case) : bool :=
+  match c with
+  | CBigU a step n pre o_src o_dst =>
+      let src := fold_left t_insert_hash (rev' (range_hashes a step n)) (t_reset tsk_nil) in
+      let s := {| mv_v := with_counter ivalue0 {| c_cnt := inject_Z n; c_host := 0 |}; mv_dig := None; mv_hll := src |} in
+      let recv := match pre with
+                  | [] => mvalue0
+                  | _ => {| mv_v := with_counter ivalue0 {| c_cnt := 1; c_host := 0 |}; mv_dig := None;
+                            mv_hll := fold_left t_insert_hash pre (t_reset tsk_nil) |}
+                  end in
+      let '(t, m) := mv_to_tl false false s 1 0 in
+      let '(r, e, _) := merge_with_tl2 ufix recv t m 154 [0] in
+      udig_eqb (t_digest src) o_src && (e =? 0) && udig_eqb (t_digest (mv_hll r)) o_dst
+  | _ => false
+  end.
+
+Definition ok (c : case) : bool := if ok_bucket c then true else if ok_bigu true c then true else if ok_bigu false c then true else if ok_with false c then true else ok_with true c.
 
 Definition mism := mismatches ok.
